@@ -344,10 +344,12 @@ fn sweep_alphabet() -> Vec<Stmt> {
 }
 
 fn sweep_scenario(alphabet: &[Stmt], word: &[usize]) -> Scenario {
-    let mut inner = vec![Stmt::New];
+    // the constructor alternates with the word (both public constructors must arm the bomb alike)
+    let ctor = if word.iter().sum::<usize>() % 2 == 0 { Stmt::New } else { Stmt::NewDefault };
+    let mut inner = vec![ctor];
     inner.extend(word.iter().map(|i| alphabet[*i].clone()));
     // second catch scope: after whatever happened, a fresh unfinished accumulator must still explode
-    Scenario { threads: vec![vec![Stmt::CatchScope(inner), Stmt::CatchScope(vec![Stmt::New])]], schedule: vec![] }
+    Scenario { threads: vec![vec![Stmt::CatchScope(inner), Stmt::CatchScope(vec![if word.len() % 2 == 0 { Stmt::NewDefault } else { Stmt::New }])]], schedule: vec![] }
 }
 
 fn nth_word(mut n: u64, base: usize, len: usize) -> Vec<usize> {
